@@ -74,6 +74,11 @@ def ensure_streams(app: appboot.App):
     a = mp4synth.make_track("audio", 48000, [80896] * 10 + [71680], samples_per_segment=[79] * 10 + [70],
                             seed=72, track_id=2, sample_durations_in="trun")
     mp4synth.register(app, "syn7", "Synthetic NTSC", {"syn7_v1": v, "syn7_a1": a}, timing_from="syn7_v1")
+    # syn8: the minimum the indexer and the live code accept – two media segments per track, of unequal length
+    v = mp4synth.make_track("video", 240, [1920, 960], samples_per_segment=[8, 4], seed=81, track_id=1)
+    a = mp4synth.make_track("audio", 48000, [384000, 192512], samples_per_segment=[375, 188], seed=82, track_id=2,
+                            sample_durations_in="trun")
+    mp4synth.register(app, "syn8", "Synthetic two segments", {"syn8_v1": v, "syn8_a1": a}, timing_from="syn8_v1")
     _STREAMS_READY = True
 
 
